@@ -35,6 +35,7 @@ func genC17(seed uint64, part string) *Scenario {
 	if r.Chance(1, 4) {
 		sc.Q = r.Pick(0, 1)
 	}
+	sc.Pop = r.Chance(1, 4)
 	step := func(n int) Op {
 		if sc.Mode == "manual" {
 			return Op{K: "rw"}
@@ -167,6 +168,7 @@ func genC06(seed uint64, part string) *Scenario {
 			b.After = r.Intn(i)
 			b.Prio = nil
 		}
+		b.Rm = r.Chance(1, 4)
 		sc.Bars = append(sc.Bars, b)
 	}
 	step := func() Op {
